@@ -248,7 +248,8 @@ def run(ctx):
         for k_, m_ in _Counter(ct).items():
             size //= (k_ ** m_) * _math.factorial(m_)
         return size
-    for n, classes in ((4, {(2, 2): None, (3,): 0}), (5, {(2,): 0, (3,): None}), (5, {(2, 2): 0}), (4, {(2,): None, (3,): 2, (4,): 0}), (6, {(3, 3): 0, (2,): None})):
+    for n, classes in ((5, {(2, 2): None, (2,): None}), (6, {(2,): None, (2, 2): None, (2, 2, 2): None}), (6, {(3, 3): None, (3,): None}), (5, {(2, 1): None, (2, 2, 1): None}),
+                       (4, {(2, 2): None, (3,): 0}), (5, {(2,): 0, (3,): None}), (5, {(2, 2): 0}), (4, {(2,): None, (3,): 2, (4,): 0}), (6, {(3, 3): 0, (2,): None})):
         want = sum(class_size(n, c) if k is None else k for c, k in classes.items())
         try:
             got = len(PermutationGroups.conjugacy_classes(n, dict(classes)).generators_permutations)
